@@ -2,7 +2,10 @@
 // tree of contexts and records, after every operation, what an in-memory zap core
 // (zaptest/observer) captures for every context at every level Debug..Error.
 //
-//	c18 -seed N -out PREFIX -mode corpus|random|nearmiss|replay|stress -n COUNT [-in FILE]
+//	c18 -seed N -out PREFIX -mode corpus|random|nearmiss|globalswap|sparsecorpus|sparse|replay|stress -n COUNT [-in FILE]
+//
+// Modes sparse / sparsecorpus call Log(ctx) only at a few points of the history and on every
+// context at its end (a defect that an intermediate Log call repairs stays visible).
 //
 // Field k is the zap field Int64("f<k mod 7>", k): names repeat, values identify the field.
 package main
@@ -60,6 +63,23 @@ type jcase struct {
 	Glob globalSpec `json:"glob"`
 	Ops  []op       `json:"ops"`
 	Obs  [][]dobs   `json:"obs"` // per step (first: before any operation) the probes that changed
+	// sparse observation: Log(ctx) is called only at the points of Plan and, for every context,
+	// after the whole history
+	Sparse bool      `json:"sparse,omitempty"`
+	Plan   []probePt `json:"plan,omitempty"`
+	Probes []pobs    `json:"probes,omitempty"`
+}
+
+// probePt: after At operations, probe the contexts Ctxs (in that order).
+type probePt struct {
+	At   int   `json:"at"`
+	Ctxs []int `json:"ctxs"`
+}
+
+// pobs: what the probes taken after At operations showed.
+type pobs struct {
+	At  int    `json:"at"`
+	Obs []dobs `json:"obs"`
 }
 
 type cop struct {
@@ -199,6 +219,36 @@ func same(a, b []uint64) bool {
 	return true
 }
 
+// apply executes one operation on the real package and returns the context it yields.
+func apply(i int, o op, ctxs []context.Context, logs *sinks, cancels *[]context.CancelFunc) context.Context {
+	var c context.Context = context.TODO()
+	if o.Ctx >= 0 && o.Ctx < len(ctxs) {
+		c = ctxs[o.Ctx]
+	}
+	switch o.Op {
+	case "Init":
+		return log.InitLogger(c, zfields(o.Fields)...)
+	case "Child":
+		return log.ChildLogger(c, zfields(o.Fields)...)
+	case "With":
+		return log.WithFields(c, zfields(o.Fields)...)
+	case "SetLevel":
+		return log.SetLevel(c, zapcore.Level(o.Level))
+	case "EnableDebug":
+		return log.EnableDebug(c)
+	case "Global":
+		logs.install(globalSpec{Level: o.Level, Fields: o.Fields})
+		return context.TODO()
+	default: // Derive: a context derived for an unrelated reason
+		if i%2 == 0 {
+			return context.WithValue(c, otherKey{i}, i)
+		}
+		r, cancel := context.WithCancel(c)
+		*cancels = append(*cancels, cancel)
+		return r
+	}
+}
+
 // runSeq executes the operations on the real package.
 func runSeq(g globalSpec, ops []op) [][]dobs {
 	logs := installGlobal(g)
@@ -206,36 +256,14 @@ func runSeq(g globalSpec, ops []op) [][]dobs {
 	prev := []cobs{probe(ctxs[0], logs)}
 	out := make([][]dobs, 0, len(ops)+1)
 	out = append(out, []dobs{{0, prev[0]}})
+	var cancels []context.CancelFunc
+	defer func() {
+		for _, c := range cancels {
+			c()
+		}
+	}()
 	for i, o := range ops {
-		var c context.Context = context.TODO()
-		if o.Ctx >= 0 && o.Ctx < len(ctxs) {
-			c = ctxs[o.Ctx]
-		}
-		var r context.Context
-		switch o.Op {
-		case "Init":
-			r = log.InitLogger(c, zfields(o.Fields)...)
-		case "Child":
-			r = log.ChildLogger(c, zfields(o.Fields)...)
-		case "With":
-			r = log.WithFields(c, zfields(o.Fields)...)
-		case "SetLevel":
-			r = log.SetLevel(c, zapcore.Level(o.Level))
-		case "EnableDebug":
-			r = log.EnableDebug(c)
-		case "Global":
-			logs.install(globalSpec{Level: o.Level, Fields: o.Fields})
-			r = context.TODO()
-		default: // Derive: a context derived for an unrelated reason
-			if i%2 == 0 {
-				r = context.WithValue(c, otherKey{i}, i)
-			} else {
-				var cancel context.CancelFunc
-				r, cancel = context.WithCancel(c)
-				defer cancel()
-			}
-		}
-		ctxs = append(ctxs, r)
+		ctxs = append(ctxs, apply(i, o, ctxs, logs, &cancels))
 		// every context is probed at every level after every step; only changes are written
 		diff := []dobs{}
 		for k, cx := range ctxs {
@@ -251,6 +279,43 @@ func runSeq(g globalSpec, ops []op) [][]dobs {
 		out = append(out, diff)
 	}
 	return out
+}
+
+// runSparse executes the operations and calls Log(ctx) only where the plan says so, and on every
+// context once the whole history has run.
+func runSparse(g globalSpec, ops []op, plan []probePt) []pobs {
+	logs := installGlobal(g)
+	ctxs := []context.Context{context.TODO()}
+	var cancels []context.CancelFunc
+	defer func() {
+		for _, c := range cancels {
+			c()
+		}
+	}()
+	var out []pobs
+	at := func(k int) {
+		for _, p := range plan {
+			if p.At != k || k >= len(ops) {
+				continue
+			}
+			po := pobs{At: k, Obs: []dobs{}}
+			for _, c := range p.Ctxs {
+				if c >= 0 && c < len(ctxs) {
+					po.Obs = append(po.Obs, dobs{c, probe(ctxs[c], logs)})
+				}
+			}
+			out = append(out, po)
+		}
+	}
+	for i, o := range ops {
+		at(i)
+		ctxs = append(ctxs, apply(i, o, ctxs, logs, &cancels))
+	}
+	fin := pobs{At: len(ops), Obs: []dobs{}}
+	for k, cx := range ctxs {
+		fin.Obs = append(fin.Obs, dobs{k, probe(cx, logs)})
+	}
+	return append(out, fin)
 }
 
 // ---------- Gallina printing (every case term is wrapped in (…)%N: field ids and masks are N) ----------
@@ -309,7 +374,22 @@ func emit(out *gal.Out, kind string, g globalSpec, ops []op) {
 		gal.ListOf(obs, func(r []dobs) string {
 			return gal.ListOf(r, func(d dobs) string { return gal.Pair(gal.Nat(d.Ctx), gObs(d.Obs)) })
 		}) + " |})%N"
-	out.Case(t, jcase{kind, g, ops, obs})
+	out.Case(t, jcase{Kind: kind, Glob: g, Ops: ops, Obs: obs})
+}
+
+func emitSparse(out *gal.Out, kind string, g globalSpec, ops []op, plan []probePt) {
+	if g.Fields == nil {
+		g.Fields = []uint64{}
+	}
+	if plan == nil {
+		plan = []probePt{}
+	}
+	pr := runSparse(g, ops, plan)
+	t := "({| lp_glob := " + gCore(g) + "; lp_ops := " + gal.ListOf(ops, gOp) + "; lp_probes := " +
+		gal.ListOf(pr, func(p pobs) string {
+			return gal.Pair(gal.Nat(p.At), gal.ListOf(p.Obs, func(d dobs) string { return gal.Pair(gal.Nat(d.Ctx), gObs(d.Obs)) }))
+		}) + " |})%N"
+	out.Case(t, jcase{Kind: kind, Glob: g, Ops: ops, Sparse: true, Plan: plan, Probes: pr})
 }
 
 // ---------- generators ----------
@@ -408,6 +488,137 @@ func (g *gen) randomOps(n int, nearmiss bool) []op {
 	return ops
 }
 
+// one1 returns one fresh field (occasionally two): fields collected one call at a time.
+func (g *gen) one1() []uint64 {
+	n := 1
+	if g.r.IntN(6) == 0 {
+		n = 2
+	}
+	out := make([]uint64, n)
+	for i := range out {
+		out[i] = g.next
+		g.next++
+	}
+	return out
+}
+
+// chainOps: histories in which loggers ACCUMULATE before anything else happens to them - a
+// logger collects fields over several WithFields calls (through the context itself or contexts
+// sharing its holder), possibly a level, and is then forked several times (ChildLogger with and
+// without fields, InitLogger) while parent, children and siblings keep collecting fields and
+// levels.  Several such rounds, each starting from a logger created earlier.
+func (g *gen) chainOps(n int) []op {
+	ops := make([]op, 0, n)
+	add := func(o op) int { // returns the index of the context the operation yields
+		if len(ops) < n {
+			ops = append(ops, o)
+		}
+		return len(ops)
+	}
+	var loggers []int // contexts that carry a holder of their own
+	for len(ops) < n {
+		// the logger of this round: a new one, or one created before (a child, a sibling ...)
+		var cur int
+		switch {
+		case len(loggers) == 0 || g.r.IntN(4) == 0:
+			cur = add(op{Op: "Init", Ctx: 0, Fields: g.fields(2)})
+		default:
+			cur = loggers[g.r.IntN(len(loggers))]
+		}
+		share := []int{cur}
+		k := 1 + g.r.IntN(8)
+		for i := 0; i < k && len(ops) < n; i++ {
+			c := share[g.r.IntN(len(share))]
+			switch x := g.r.IntN(20); {
+			case x == 0:
+				share = append(share, add(op{Op: "Derive", Ctx: c}))
+			case x == 1:
+				share = append(share, add(op{Op: "SetLevel", Ctx: c, Level: g.level()}))
+			case x == 2:
+				share = append(share, add(op{Op: "EnableDebug", Ctx: c}))
+			default:
+				share = append(share, add(op{Op: "With", Ctx: c, Fields: g.one1()}))
+			}
+		}
+		loggers = append(loggers, cur)
+		// forks and further updates of parent / children / siblings, interleaved
+		family := []int{cur}
+		m := 2 + g.r.IntN(4)
+		for i := 0; i < m && len(ops) < n; i++ {
+			c := family[g.r.IntN(len(family))]
+			switch x := g.r.IntN(10); {
+			case x < 5:
+				fs := g.one1()
+				if g.r.IntN(4) == 0 {
+					fs = nil
+				}
+				ch := add(op{Op: "Child", Ctx: share[g.r.IntN(len(share))], Fields: fs})
+				family, loggers = append(family, ch), append(loggers, ch)
+			case x < 8:
+				add(op{Op: "With", Ctx: c, Fields: g.one1()})
+			case x < 9:
+				add(op{Op: "SetLevel", Ctx: c, Level: g.level()})
+			default:
+				ch := add(op{Op: "Child", Ctx: c, Fields: g.one1()})
+				family, loggers = append(family, ch), append(loggers, ch)
+			}
+		}
+	}
+	return ops
+}
+
+// plan: where a sparse case calls Log(ctx) before the end of the history: nowhere (half of the
+// cases), or at a few random points on one or two of the contexts that exist then.
+func (g *gen) plan(nops int) []probePt {
+	pl := []probePt{}
+	if g.r.IntN(2) == 0 {
+		return pl
+	}
+	for k := 1; k < nops; k++ {
+		if g.r.IntN(8) != 0 {
+			continue
+		}
+		cs := []int{g.r.IntN(k + 1)}
+		if g.r.IntN(3) == 0 {
+			cs = append(cs, g.r.IntN(k+1))
+		}
+		pl = append(pl, probePt{At: k, Ctxs: cs})
+	}
+	return pl
+}
+
+// sparseCorpus: one entry per class of history in which an intermediate Log(ctx) could hide a
+// defect; all are probed only after the last operation.
+func sparseCorpus(out *gal.Out) {
+	info := globalSpec{Level: 0, Fields: []uint64{}}
+	w := func(c int, k uint64) op { return op{Op: "With", Ctx: c, Fields: []uint64{k}} }
+	ch := func(c int, ks ...uint64) op { return op{Op: "Child", Ctx: c, Fields: ks} }
+	for _, k := range []int{1, 2, 3, 4, 5, 6, 7, 8} {
+		// a logger that collected k fields one call at a time is forked twice; then the parent
+		// and both children each collect one more
+		ops := []op{{Op: "Init", Ctx: 0}}
+		for i := 0; i < k; i++ {
+			ops = append(ops, w(i+1, uint64(i+1)))
+		}
+		p := k + 1
+		ops = append(ops, ch(p, 20), ch(p, 21), w(p, 22), w(p+1, 23), w(p+2, 24))
+		emitSparse(out, "sparsecorpus", info, ops, nil)
+		// the same with zero-field children that collect afterwards, and a level set on the way
+		ops = []op{{Op: "Init", Ctx: 0, Fields: []uint64{9}}}
+		for i := 0; i < k; i++ {
+			ops = append(ops, w(i+1, uint64(i+1)))
+		}
+		ops = append(ops, op{Op: "SetLevel", Ctx: p, Level: 1}, ch(p+1), ch(p+1), w(p+2, 30), w(p+3, 31), w(p+1, 32),
+			op{Op: "EnableDebug", Ctx: p + 3})
+		emitSparse(out, "sparsecorpus", info, ops, nil)
+	}
+	// fields given in one call, on the holder-less root, after InitLogger over an existing holder
+	emitSparse(out, "sparsecorpus", info, []op{{Op: "Init", Ctx: 0, Fields: []uint64{1, 2, 3}}, ch(1, 4), ch(1, 5), w(1, 6)}, nil)
+	emitSparse(out, "sparsecorpus", info, []op{w(0, 1), w(1, 2), w(2, 3), ch(3, 4), ch(3, 5), w(0, 6), ch(0, 7)}, nil)
+	emitSparse(out, "sparsecorpus", info, []op{{Op: "Init", Ctx: 0, Fields: []uint64{1}}, w(1, 2), w(1, 3),
+		{Op: "Init", Ctx: 3, Fields: []uint64{4}}, w(4, 5), ch(3, 6), ch(4, 7), w(3, 8)}, nil)
+}
+
 func corpus(out *gal.Out) {
 	info := globalSpec{Level: 0, Fields: []uint64{}}
 	warn := globalSpec{Level: 1, Fields: []uint64{}}
@@ -475,6 +686,25 @@ func suspicious(in globalSpec, progs [][]cop, fin cobs) bool {
 		want[f]--
 		if want[f] < 0 {
 			return true
+		}
+	}
+	// the fields of one goroutine keep the order in which it added them
+	for _, p := range progs {
+		rest := fin.Fields[len(in.Fields):]
+		for _, o := range p {
+			if o.Op != "With" {
+				continue
+			}
+			for _, f := range o.Fields {
+				k := 0
+				for k < len(rest) && rest[k] != f {
+					k++
+				}
+				if k == len(rest) {
+					return true
+				}
+				rest = rest[k+1:]
+			}
 		}
 	}
 	for _, l := range lasts {
@@ -550,7 +780,7 @@ func stress(out *gal.Out, g *gen, n int) {
 		}
 		t := "({| sc_init := " + gCore(gs) + "; sc_progs := " +
 			gal.ListOf(progs, func(p []cop) string { return gal.ListOf(p, gCop) }) +
-			"; sc_final := " + gObs(fin) + " |})%N"
+			"; sc_final := " + gObs(fin) + "; sc_children := [] |})%N"
 		out.Case(t, scase{"stress", gs, progs, fin, it, nth})
 	}
 }
@@ -558,7 +788,7 @@ func stress(out *gal.Out, g *gen, n int) {
 func main() {
 	seed := flag.Uint64("seed", 1, "seed")
 	outp := flag.String("out", "c18", "output prefix")
-	mode := flag.String("mode", "random", "corpus|random|nearmiss|globalswap|replay|stress")
+	mode := flag.String("mode", "random", "corpus|random|nearmiss|globalswap|sparsecorpus|sparse|replay|stress")
 	n := flag.Int("n", 100, "number of cases")
 	maxLen := flag.Int("maxlen", 25, "maximal sequence length")
 	in := flag.String("in", "", "replay: file with one {glob, ops} JSON object per line")
@@ -571,6 +801,24 @@ func main() {
 	switch *mode {
 	case "corpus":
 		corpus(out)
+	case "sparsecorpus":
+		sparseCorpus(out)
+	case "sparse":
+		for i := 0; i < *n; i++ {
+			g.next = 1
+			gs := g.global()
+			ln := 4 + g.r.IntN(*maxLen-3)
+			if i%4 == 0 {
+				ln = *maxLen
+			}
+			var ops []op
+			if i%2 == 0 {
+				ops = g.chainOps(ln)
+			} else {
+				ops = g.randomOps(ln, i%4 == 1)
+			}
+			emitSparse(out, "sparse", gs, ops, g.plan(len(ops)))
+		}
 	case "replay":
 		f, err := os.Open(*in)
 		if err != nil {
@@ -588,7 +836,11 @@ func main() {
 			if kind == "" {
 				kind = "replay"
 			}
-			emit(out, kind, c.Glob, c.Ops)
+			if c.Sparse {
+				emitSparse(out, kind, c.Glob, c.Ops, c.Plan)
+			} else {
+				emit(out, kind, c.Glob, c.Ops)
+			}
 		}
 	case "stress":
 		stress(out, g, *n)
